@@ -1,6 +1,7 @@
 package main
 
 import (
+	"os"
 	"reflect"
 	"fmt"
 	"go/constant"
@@ -442,6 +443,34 @@ func (e *Engine) initExt2() {
 		vc.fact(Eq(mk(SStr, dirOf, nm), args[0].one()))
 		return v
 	})
+	e.reg("os.OpenFile", "os.OpenFile(path, flags, mode): (file, err) with file != nil when err == nil; the file's name is path; with O_CREATE or O_TRUNC (or flags that are not a constant) the call itself creates or truncates path in place, which is a non-atomic write to that path", func(f *Frame, st *State, c *ssa.CallCommon, args []Val, rt types.Type, pos token.Pos) Val {
+		v := valueOrError(f, st, rt, "file")
+		vc := f.vc
+		nameOf := vc.declareFun("fs.nameOf", []*Sort{SInt}, SStr)
+		vc.fact(Imp(Ne(v.L[0], Zero), Eq(mk(SStr, nameOf, v.L[0]), args[0].one())))
+		writes := true
+		if c != nil {
+			if fl, ok := constInt(c.Args[1]); ok && fl&int64(os.O_CREATE|os.O_TRUNC) == 0 {
+				writes = false
+			}
+		}
+		if writes {
+			f.fsWrite(st, "OpenFile", args[0].one(), false, pos)
+		}
+		return v
+	})
+	for _, n := range []string{"(*sync/atomic.Bool).Load", "(*sync/atomic.Bool).Store", "(*sync/atomic.Bool).CompareAndSwap", "(*sync/atomic.Int32).Load", "(*sync/atomic.Int32).Store", "(*sync/atomic.Int32).Add", "(*sync/atomic.Int64).Load", "(*sync/atomic.Int64).Add"} {
+		n := n
+		e.reg(n, n+": atomic operation on its receiver only; result unconstrained; acquires no lock (it orders nothing but the flag itself)", func(f *Frame, st *State, c *ssa.CallCommon, args []Val, rt types.Type, pos token.Pos) Val {
+			if rt == nil {
+				return Val{}
+			}
+			if tt, ok := rt.(*types.Tuple); ok && tt.Len() == 0 {
+				return Val{T: rt}
+			}
+			return freshResult(f, st, rt, "atomic")
+		})
+	}
 	e.reg("(*os.File).Name", "File.Name: the path the file was opened with", func(f *Frame, st *State, c *ssa.CallCommon, args []Val, rt types.Type, pos token.Pos) Val {
 		nameOf := f.vc.declareFun("fs.nameOf", []*Sort{SInt}, SStr)
 		return scalar(rt, mk(SStr, nameOf, args[0].one()))
